@@ -58,7 +58,7 @@ EDGE_SELECTORS = []
 for box, flag in ((b"/m.mbox", b"/MBOX-MESSAGE/"), (b"/md", b"/MAILDIR-MESSAGE/"), (b"/x", b"/MBOX-MESSAGE/"),
                   (b"/x", b"/MAILDIR-MESSAGE/"), (b"/f.txt", b"/MBOX-MESSAGE/"), (b"/a", b"/MAILDIR-MESSAGE/"),
                   (b"/md", b"/MBOX-MESSAGE/"), (b"/m.mbox", b"/MAILDIR-MESSAGE/"), (b"/z.zip/m.mbox", b"/MBOX-MESSAGE/")):
-    for num in (b"0", b"1", b"2", b"3", b"99999999999999999999", b"x", b"-1", b"", b"1x", b" 1", b"01"):
+    for num in (b"0", b"1", b"2", b"3", b"99999999999999999999", b"9" * 5000, b"x", b"-1", b"", b"1x", b" 1", b"01"):
         for sep in (b"|", b"?"):
             EDGE_SELECTORS.append(box + sep + flag + num)
 EDGE_SELECTORS += [
@@ -206,7 +206,7 @@ MENU_B = [
     ("http", b"/h.html"), ("gopher", b"/nope"), ("gopherp", b"/t.html.tal"),
     # every directory of the tree listed as a plain directory (leaves a cache file there) ...
     ("gopher", b"/md/cur"), ("gopher", b"/md/new"), ("gopher", b"/md/tmp"), ("gopher", b"/.cap"), ("gopher", b"/a/deep"), ("gopher", b"/emptydir"),
-    ("gopher", b"/z.zip"), ("gopher", b"/gm/."), ("gopher", b"/md/."),
+    ("gopher", b"/z.zip"), ("gopher", b"/gm/."), ("gopher", b"/md/."), ("gopher", b"/a/."), ("gopher", b"/a//"), ("http", b"/a/deep/."), ("gopher", b"/a/deep"),
     # ... and one observer per handler kind
     ("gopher", b"/md"), ("gopherp_dir", b"/md"), ("gopher", b"/md|/MAILDIR-MESSAGE/1"), ("gopher", b"/z.zip/f.txt"), ("gopherp_dir", b"/gm"),
     ("gopher", b"/x.gophermap"), ("gopher", b"/s.sh"), ("gopher", b"/p.pyg"), ("gopher", b"/c.txt.gz"), ("http", b"/noext"),
